@@ -792,10 +792,14 @@ fn run_pse(ws: &[&str]) -> Option<(String, Vec<String>)> {
     use std::sync::atomic::AtomicUsize;
     let workers: usize = kv(ws, "workers")?.parse().ok()?;
     let kinds: Vec<String> = kv(ws, "ls")?.split(',').map(String::from).collect();
-    if !(1..=4).contains(&workers) || kinds.is_empty() || kinds.len() > 4 || !kinds.iter().all(|k| matches!(k.as_str(), "tb" | "tl" | "ub" | "ul")) {
+    if !(1..=4).contains(&workers) || kinds.is_empty() || kinds.len() > 4 || !kinds.iter().all(|k| matches!(k.as_str(), "tb" | "tl" | "ub" | "ul" | "t2")) {
         return None;
     }
-    let nl = kinds.len();
+    // sockets: `t2` is ONE `bind` call with two addresses (two sockets, one service); TCP sockets also get a client that
+    // resets its connection at once in every paused phase (the connection is accepted and handed to the service all the same)
+    let nsock: usize = kinds.iter().map(|k| if k == "t2" { 2 } else { 1 }).sum();
+    let ntcp: usize = kinds.iter().map(|k| match k.as_str() { "t2" => 2, "tb" | "tl" => 1, _ => 0 }).sum();
+    let nl = nsock + ntcp;
     let _beat = Beating::start();
     let mut last = (0usize, 0usize, String::new());
     for attempt in 0..3u32 {
@@ -855,7 +859,19 @@ fn run_pse(ws: &[&str]) -> Option<(String, Vec<String>)> {
                                 drop(lst); // the port is free again; `bind` creates its own socket on it
                                 b = b.bind(format!("l{}", 9 - i), addr, fac).map_err(|e| format!("bind: {e}"))?;
                             }
-                            addrs.push(A::Tcp(addr));
+                            addrs.push((A::Tcp(addr), i));
+                        }
+                        "t2" => {
+                            // one `bind` call, two addresses: both sockets belong to THIS service
+                            let mut two = vec![];
+                            for _ in 0..2 {
+                                let l = std::net::TcpListener::bind("127.0.0.1:0").map_err(|e| format!("bind: {e}"))?;
+                                two.push(l.local_addr().map_err(|e| e.to_string())?);
+                                drop(l);
+                            }
+                            b = b.bind(format!("l{}", 9 - i), &two[..], fac).map_err(|e| format!("bind: {e}"))?;
+                            addrs.push((A::Tcp(two[0]), i));
+                            addrs.push((A::Tcp(two[1]), i));
                         }
                         _ => {
                             let dir = std::path::Path::new("/verif/.build/run/uds");
@@ -868,7 +884,7 @@ fn run_pse(ws: &[&str]) -> Option<(String, Vec<String>)> {
                             } else {
                                 b = b.bind_uds(format!("l{}", 9 - i), &p, ufac).map_err(|e| format!("bind_uds: {e}"))?;
                             }
-                            addrs.push(A::Uds(p));
+                            addrs.push((A::Uds(p), i));
                         }
                     }
                 }
@@ -894,17 +910,18 @@ fn run_pse(ws: &[&str]) -> Option<(String, Vec<String>)> {
                     }
                     served.load(Ordering::SeqCst)
                 };
-                // A on every listener, one at a time: served, and by the service registered for THAT listener
-                for (i, a) in addrs.iter().enumerate() {
+                // A on every socket, one at a time: served, and by the service registered for THAT socket
+                let mut want: Vec<usize> = vec![0; served_by.len()];
+                for (i, (a, si)) in addrs.iter().enumerate() {
                     connect(a, &mut keep)?;
                     let got = wait_for(i + 1, served.clone(), Duration::from_secs(30)).await;
                     if got < i + 1 {
                         return Err(format!("only {got} of {} first connections were served within 30 s", i + 1));
                     }
+                    want[*si] += 1;
                     let by: Vec<usize> = served_by.iter().map(|c| c.load(Ordering::SeqCst)).collect();
-                    let want: Vec<usize> = (0..by.len()).map(|j| usize::from(j <= i)).collect();
                     if by != want {
-                        return Err(format!("misrouted: the connection made to listener {i} was not served by listener {i}'s service (served per listener {by:?}, expected {want:?})"));
+                        return Err(format!("misrouted: the connection made to socket {i} (service {si}) was not served by that service (served per service {by:?}, expected {want:?})"));
                     }
                 }
                 let s1 = served.load(Ordering::SeqCst);
@@ -915,13 +932,23 @@ fn run_pse(ws: &[&str]) -> Option<(String, Vec<String>)> {
                 for _cycle in 0..2 {
                     handle.pause().await;
                     tokio::time::sleep(settle).await;
-                    for a in &addrs {
+                    let mut n = 0;
+                    for (a, _) in &addrs {
                         connect(a, &mut keep)?;
+                        n += 1;
+                        if let A::Tcp(addr) = a {
+                            // a client that gives up at once (RST): still an accepted connection, still handed to the service
+                            if let Ok(c) = std::net::TcpStream::connect(addr) {
+                                let _ = socket2::SockRef::from(&c).set_linger(Some(Duration::ZERO));
+                                drop(c);
+                                n += 1;
+                            }
+                        }
                     }
                     tokio::time::sleep(Duration::from_millis(400)).await;
                     let d = served.load(Ordering::SeqCst) - base;
                     handle.resume().await;
-                    let s3 = wait_for(base + addrs.len(), served.clone(), Duration::from_secs(30)).await;
+                    let s3 = wait_for(base + n, served.clone(), Duration::from_secs(30)).await;
                     during += d;
                     after += s3 - base - d;
                     base = s3;
@@ -930,7 +957,7 @@ fn run_pse(ws: &[&str]) -> Option<(String, Vec<String>)> {
                 // (a server whose accept thread no longer reacts cannot be stopped: do not wait long for it)
                 let _ = tokio::time::timeout(Duration::from_secs(8), handle.stop(false)).await;
                 let _ = tokio::time::timeout(Duration::from_secs(4), task).await;
-                for a in &addrs {
+                for (a, _) in &addrs {
                     if let A::Uds(p) = a {
                         let _ = std::fs::remove_file(p);
                     }
@@ -974,7 +1001,10 @@ fn run_pse(ws: &[&str]) -> Option<(String, Vec<String>)> {
         t3.push(format!("C05\t{during} connection(s) were dispatched while the server was paused (listeners {}; pause() had returned at least 4.8 s earlier in the last of three attempts)", kinds.join(",")));
     }
     if during + after < 2 * nl {
-        t3.push(format!("C05\tafter resume only {} of {} connections that arrived during the two pauses were served within 30 s (listeners {}): a listener is stranded", during + after, 2 * nl, kinds.join(",")));
+        let msg = format!("after resume only {} of {} connections that arrived during the two pauses (one per socket, plus one per TCP socket whose client reset it at once) were handed to their service within 30 s (listeners {}): a listener is stranded or an accepted connection was discarded", during + after, 2 * nl, kinds.join(","));
+        t3.push(format!("C05\t{msg}"));
+        // an accepted connection that never reaches its listener's service while the server runs (C01)
+        t3.push(format!("C01\t{msg}"));
     }
     Some((format!("during={during} after={after}"), t3))
 }
@@ -1725,7 +1755,7 @@ fn gen(a: &Args) {
     if prop == "C05" {
         // every way a listener can be handed to the builder: pause holds connections back, resume serves them
         writeln!(w, "case builder-pause workers=1 limit=1 listeners=tcp").unwrap();
-        for l in ["pse workers=1 ls=ul,tl", "pse workers=2 ls=ub,tb"] {
+        for l in ["pse workers=1 ls=ul,tl", "pse workers=2 ls=ub,t2"] {
             writeln!(w, "{l}").unwrap();
         }
         if thorough {
@@ -1789,8 +1819,8 @@ fn gen(a: &Args) {
         // every listener's connections reach THAT listener's service: real `Server`s through the public builder,
         // listener names not in lexicographic order of registration, TCP and UDS mixed
         writeln!(w, "case builder-routing workers=1 limit=1 listeners=tcp").unwrap();
-        writeln!(w, "pse workers=1 ls=tb,tl,tb").unwrap();
-        writeln!(w, "pse workers=2 ls=ub,tl").unwrap();
+        writeln!(w, "pse workers=1 ls=t2,tl,tb").unwrap();
+        writeln!(w, "pse workers=2 ls=ub,t2").unwrap();
     }
     if prop == "C02" {
         // the configured limit reaches the workers whatever the order of the builder calls: real `Server`s
